@@ -9,7 +9,7 @@ namespace RotoV.Parse
 open RotoV RotoV.Lex
 
 section
-variable (T : TablesOk) {c : Ctx} (hl : LitOk c) (W : winOk 2 Gen.ParseFacts.recordWindows = true)
+variable (T : LexOk) {c : Ctx} (hl : LitOk c) (W : winOk 2 Gen.ParseFacts.recordWindows = true)
 include T hl W
 
 theorem block_spec (n : Nat) {s0 : PState} (h : InvB 2 c s0) :
@@ -227,7 +227,7 @@ theorem parseWith_ok (fuel : Nat) (hf : 32 * blen c.src + 1 ≤ fuel) : OutOk c 
       | none => exact fun x hx => hi'.sp x (by simpa using hx)
       | some it =>
         cases it with
-        | tok k sp => exact ⟨hr'.1.2, by intro x hx; cases hx⟩
+        | tok k sp => exact ⟨hr'.1.2.1, by intro x hx; cases hx⟩
         | invalid sp => exact ⟨hr'.1, by intro x hx; cases hx⟩
 
 end
